@@ -56,8 +56,75 @@ let bs b = if b then "1" else "0"
 let cstr l = let b = Buffer.create 16 in List.iter (Buffer.add_char b) l; Buffer.contents b
 let sep c f l = String.concat c (List.map f l)
 
+let explode s = List.init (String.length s) (String.get s)
+let tok_of = function
+  | L [A "op"; A s] -> Model.TOp (explode s)
+  | L [A "int"; n] -> Model.TInt (z_of n)
+  | L [A "data"; b] -> Model.TData (bytes_of b)
+  | _ -> failwith "tok"
+let stok_of = function
+  | L [A "op"; A s] -> Model.SOp (explode s)
+  | L [A "int"; n] -> Model.SInt (z_of n)
+  | L [A "data"; b] -> Model.SData (bytes_of b)
+  | _ -> failwith "stok"
+let item_of_name nm = match Model.spec_assoc nm Model.consensus_opcodes with
+  | Some b -> "#" ^ zs b | None -> "?" ^ cstr nm
+let show_tok = function
+  | Model.TOp nm -> item_of_name nm
+  | Model.TInt n -> "int" ^ zs n
+  | Model.TData d -> "x" ^ hex_of d
+let show_toks l = sep "," show_tok l
+let show_item = function Model.IOp b -> "#" ^ zs b | Model.IPush [] -> "#0" | Model.IPush d -> "x" ^ hex_of d
+let nat_len l = big_int_of_int (List.length l)
+
 let dispatch (name : string) (args : sx list) : string =
   match name, args with
+  (* ---- C18 ---- *)
+  | "seq", [ty; v; blk] ->
+      (match Model.mk_sequence (z_of ty) (z_of v) (bool_of blk) with
+       | None -> "ERR"
+       | Some s ->
+           (match Model.for_input_sequence s with
+            | Model.SeqBytes b -> hex_of b | Model.SeqNone -> "NONE" | Model.SeqErr -> "ERR")
+           ^ "|" ^ opt zs (Model.for_script s))
+  | "seq_facts", [ty; v; blk; want_rbf] ->
+      (match Model.mk_sequence (z_of ty) (z_of v) (bool_of blk) with
+       | None -> "ERR"
+       | Some s ->
+           (match Model.for_input_sequence s with
+            | Model.SeqBytes b ->
+                let x = Model.le_val b in
+                "len4=" ^ bs (List.length b = 4) ^ ",nonfinal=" ^ bs (Model.enforces_locktime x)
+                ^ (if bool_of want_rbf then ",rbf=" ^ bs (Model.signals_rbf x) else "")
+            | Model.SeqNone -> "NONE" | Model.SeqErr -> "ERR")
+           ^ "|" ^ opt zs (Model.for_script s))
+  | "seq_spec", [v; blk] ->
+      (* BIP68 encoding written directly: value in the low 16 bits, bit 22 for 512-second units *)
+      let x = add_big_int (z_of v) (if bool_of blk then zero_big_int else big_int_of_int 4194304) in
+      let ok = Model.bip112_ok x (big_int_of_int 2) x in
+      hex_of (Model.le_bytes (big_int_of_int 4) x) ^ "|" ^ zs x ^ (if ok then "" else "|BIP112-FAILS")
+  | "csv_script_spec", [v; blk] ->
+      let x = add_big_int (z_of v) (if bool_of blk then zero_big_int else big_int_of_int 4194304) in
+      opt hex_of (Model.spec_assemble [Model.SInt x; Model.SOp (explode "OP_CHECKSEQUENCEVERIFY")])
+  | "locktime", [v] -> opt hex_of (Model.locktime_for_transaction (z_of v))
+  | "le32", [v] -> hex_of (Model.le_bytes (big_int_of_int 4) (z_of v))
+  (* ---- C02 ---- *)
+  | "to_bytes", [ts] -> opt hex_of (Model.to_bytes (list_of tok_of ts))
+  | "spec_assemble", [ts] -> opt hex_of (Model.spec_assemble (list_of stok_of ts))
+  | "from_raw", [b; hs] -> show_toks (Model.from_raw (bytes_of b) (bool_of hs))
+  | "asm_dis", [ts; hs] ->
+      (match Model.to_bytes (list_of tok_of ts) with
+       | None -> "ERR"
+       | Some raw ->
+           let back = Model.from_raw raw (bool_of hs) in
+           hex_of raw ^ "|" ^ show_toks back ^ "|" ^ opt hex_of (Model.to_bytes back))
+  | "spec_asm_dis", [ts] ->
+      (match Model.spec_assemble (list_of stok_of ts) with
+       | None -> "ERR"
+       | Some raw ->
+           hex_of raw ^ "|" ^ opt (sep "," show_item) (Model.spec_disassemble (nat_len raw) raw) ^ "|" ^ hex_of raw)
+  | "scriptnum", [n] -> hex_of (Model.spec_scriptnum (z_of n)) ^ "|" ^ opt zs (Model.scriptnum_decode_minimal (Model.spec_scriptnum (z_of n)))
+  | "scriptnum_decode", [b] -> opt zs (Model.scriptnum_decode_minimal (bytes_of b))
   (* ---- C17 ---- *)
   | "encode_varint", [n] -> opt hex_of (Model.encode_varint (z_of n))
   | "spec_compact", [n] -> hex_of (Model.spec_compact (z_of n))
